@@ -383,6 +383,27 @@ Proof.
   - now apply locked_unique.
 Qed.
 
+(* ------------------------------------------------------------------ context chains *)
+(* WithContext over ANY parent chain yields the freshly allocated id -- never the parent's *)
+Lemma with_context_chain_fresh g parent :
+  with_context_chain [IAtomicAdd; IRetReg] g parent = (g + 1, Some (g + 1) :: parent) /\
+  chain_id (snd (with_context_chain [IAtomicAdd; IRetReg] g parent)) = Some (g + 1).
+Proof. split; reflexivity. Qed.
+
+Lemma derive_chain_id parent : chain_id (derive_chain parent) = chain_id parent.
+Proof. reflexivity. Qed.
+
+Lemma alias_chain_spec g parent source :
+  (forall sc cid, source = Some sc -> chain_id sc = Some cid ->
+     alias_chain [IAtomicAdd; IRetReg] g parent source = (g, Some cid :: parent)) /\
+  ((source = None \/ exists sc, source = Some sc /\ chain_id sc = None) ->
+     chain_id (snd (alias_chain [IAtomicAdd; IRetReg] g parent source)) = Some (g + 1)).
+Proof.
+  split.
+  - intros sc cid -> H. unfold alias_chain. now rewrite H.
+  - intros [-> |(sc & -> & H)]; unfold alias_chain; [reflexivity|now rewrite H].
+Qed.
+
 (* ------------------------------------------------------------------ Switch / Close *)
 Lemma wm_state_snoc ts pid st ops op :
   wm_state ts pid st (ops ++ [op]) = fst (fst (wm_step ts pid (wm_state ts pid st ops) op)).
